@@ -73,6 +73,36 @@ def root_rule_fragment(body):
 
 F('vx_root_rule_fits', r'constexpr void analyze_rules\(std::index_sequence<I\.\.\.>, const root_nterm_type& root\)', 'void vx_root_rule_fits(void)', fragment=root_rule_fragment)
 
+# R21: the two pack expansions that call analyze_term / analyze_nterm once per tuple element, left to right
+F('analyze_terms', r'constexpr void analyze_terms\(std::index_sequence<I\.\.\.>\)', 'void analyze_terms(void)',
+  [S(r'\(void\(analyze_term<I>\(std::get<I>\(term_tuple\)\)\), \.\.\.\);', 'for (size_t I = 0; I < P_TERMS; ++I) VX_TERMS_LOOP { analyze_term((size16_t)I, vx_get_term(&term_tuple, I)); }', name='R21:pack expansion over I -> loop')])
+F('analyze_nterms', r'constexpr void analyze_nterms\(std::index_sequence<I\.\.\.>\)', 'void analyze_nterms(void)',
+  [S(r'\(void\(analyze_nterm\(std::get<I>\(nterm_tuple\), I\)\), \.\.\.\);', 'for (size_t I = 0; I < P_NTERMS; ++I) VX_NTERMS_LOOP { analyze_nterm(vx_get_nterm(&nterm_tuple, I), (size16_t)I); }', name='R21:pack expansion over I -> loop')])
+
+# the order in which the constructor and analyze_rules run their steps (each step is under contract on its own; here: abstract, ordered)
+F('analyze_rules', r'constexpr void analyze_rules\(std::index_sequence<I\.\.\.>, const root_nterm_type& root\)', 'void analyze_rules(void)',
+  [S(r'\(void\(analyze_rule<I>\(std::get<I>\(rule_tuple\), std::make_index_sequence<Rules::n>\{\}\)\), \.\.\.\);',
+     'for (size_t I = 0; I < P_RULES; ++I) VX_RULES_LOOP { vx_step_analyze_rule(I); }', name='R21:pack expansion over I -> loop'),
+   S(r'analyze_rule<root_rule_idx>\(detail::fake_root<value_type_t<root_nterm_type>>\{\}\(root\), std::index_sequence<0>\{\}\);', 'vx_step_analyze_rule(root_rule_idx);', name='abstract step: analyze_rule<root_rule_idx>'),
+   S(r'stdex::sort\(gi\.rule_infos, \[\]\(const auto& ri1, const auto& ri2\) \{ return ri1\.l_idx < ri2\.l_idx; \}\);', 'vx_step(VX_S_SORT);', name='abstract step: sort rule_infos by left side'),
+   S(r'make_nterm_rule_slices\(\);', 'vx_step(VX_S_SLICES);', name='abstract step: make_nterm_rule_slices')])
+CTOR_STEPS = [S(r'auto seq_for_terms = std::make_index_sequence<std::tuple_size_v<term_tuple_type>>\{\};', '', name='R18:index_sequence object'),
+              S(r'analyze_nterms\(std::make_index_sequence<std::tuple_size_v<nterm_tuple_type>>\{\}\);', 'vx_step(VX_S_NTERMS);', name='abstract step'),
+              S(r'analyze_nterm\(detail::fake_root<value_type_t<root_nterm_type>>\{\}\);', 'vx_step(VX_S_FAKE_ROOT);', name='abstract step'),
+              S(r'analyze_terms\(seq_for_terms\);', 'vx_step(VX_S_TERMS);', name='abstract step'), S(r'analyze_eof\(\);', 'vx_step(VX_S_EOF);', name='abstract step'),
+              S(r'analyze_error_recovery_token\(\);', 'vx_step(VX_S_ERR);', name='abstract step'),
+              S(r'analyze_rules\(std::make_index_sequence<std::tuple_size_v<rule_tuple_type>>\{\}, grammar_root\);', 'vx_step(VX_S_RULES);', name='abstract step'),
+              S(r'state_analyzer sa\(gi, states, parse_table\);\s*state_count = sa\.analyze_states\(\);', 'vx_step(VX_S_STATES);', name='abstract step'),
+              S(r'create_lexer\(seq_for_terms\);', 'vx_step(VX_S_LEXER);', name='abstract step'),
+              Call(r'VX_INIT__(\w+)', 'vx_store_{m1}()', name='R19:member initializer (tuples stored)')]
+F('parser__ctor', r'constexpr parser\(\s*root_nterm_type grammar_root,\s*term_tuple_type terms,\s*nterm_tuple_type nterms,\s*rule_tuple_type&& rules\)', 'void parser__ctor(void)', CTOR_STEPS, ctor=True)
+
+F('create_lexer', r'constexpr void create_lexer\(std::index_sequence<I\.\.\.>\)', 'void create_lexer(void)',
+  [S(r'if constexpr \(generate_lexer\)', 'if (VX_GENERATE_LEXER)', name='R17:if constexpr on generate_lexer'),
+   S(r'regex::dfa_builder<lexer_dfa_size> b\(lexer_sm\);', 'vx_builder_on(VX_LEXER_SM);', name='R3:the one builder, on lexer_sm'),
+   S(r'\(void\(regex::add_term_data_to_dfa\(std::get<I>\(term_tuple\)\.get_data\(\), b, size16_t\(I\)\)\), \.\.\.\);',
+     'for (size_t I = 0; I < P_TERMS; ++I) VX_LEXER_LOOP { vx_add_term_data(vx_get_term(&term_tuple, I), (size16_t)(I)); }', name='R21:pack expansion over I -> loop')])
+
 # the contracts of calculate_rule_* are the ones they are proved against in unit state_analyzer (same text, read from that spec)
 _sa = load_spec(os.path.join(HERE, '..', 'contracts', 'state_analyzer.spec'))
 CALC = ''.join('%s\n%s;\n' % (sig, _sa[n]['contract'].strip()) for n, sig in (
@@ -89,7 +119,8 @@ size_t P_N;                                     /* ghost: sizeof...(R), the leng
 UNIT = Unit('glue', PRELUDE, fns, consts=PC.UNINIT + PC.CONSTS)
 UNIT.const_rules = PC.CONST_RULES
 UNIT.enums = PC.ENUMS
-UNIT.facts = PC.FACTS + [r'str_table<term_count> term_ids = \{\};', r'str_table<term_count> term_names = \{\};', r'str_table<nterm_count> nterm_names = \{\};',
+UNIT.facts = PC.FACTS + [r'analyze_terms\(seq_for_terms\);', r'auto seq_for_terms = std::make_index_sequence<std::tuple_size_v<term_tuple_type>>\{\};', r'analyze_nterms\(std::make_index_sequence<std::tuple_size_v<nterm_tuple_type>>\{\}\);',
+                         r'str_table<term_count> term_ids = \{\};', r'str_table<term_count> term_names = \{\};', r'str_table<nterm_count> nterm_names = \{\};',
                          r'string_view_to_term_value_t term_ftors\[term_count\] = \{\};']
 UNIT.typedefs = PC.RT_TYPEDEFS
 apply_spec(UNIT.fns, os.path.join(HERE, '..', 'contracts', 'glue.spec'))
